@@ -219,3 +219,69 @@ func perMessageOptionsAreFresh(c *core.Ctx) {
 			"a path reaches the UPDATE decoder without Use32BitASN having been assigned from this message's A flag (missing, or assigned under a condition only): the width of a previous message or of the session is used")
 	}
 }
+
+// snapshotAfterNegotiation: the Adj-RIB-In of a session copies the session attributes (add-path receive, roles, …) when
+// it is created (getSessionAttrs).  In the function that builds the BMP pseudo session nothing that the snapshot reads
+// may be written after the snapshot was taken: the received OPEN has to be evaluated first, or the table handles the
+// session's UPDATEs with options the session did not negotiate (add-path paths replace each other, withdrawing one
+// identifier removes the prefix).
+func snapshotAfterNegotiation(c *core.Ctx) {
+	const rule = "session-snapshot-after-negotiation"
+	p := c.P
+	f := c.MustFunc(srv + ".(*Router).processPeerUpNotification")
+	snap := c.MustFunc(srv + ".(*fsmAddressFamily).getSessionAttrs")
+	if f == nil || snap == nil {
+		return
+	}
+	c.Analysed(f, snap)
+	reads := p.ReadsTransitive(snap)
+	callsSnap := func(g *core.Fn) bool {
+		for _, r := range p.ReachableFns(g) {
+			if r == snap {
+				return true
+			}
+		}
+		return false
+	}
+	var S, W []*ast.CallExpr
+	wrote := map[*ast.CallExpr]string{}
+	ast.Inspect(f.Decl.Body, func(n ast.Node) bool {
+		call, ok := n.(*ast.CallExpr)
+		if !ok {
+			return true
+		}
+		g := p.FnOf(core.Callee(f.Pkg, call))
+		if g == nil || g.Decl.Body == nil {
+			return true
+		}
+		if callsSnap(g) {
+			S = append(S, call)
+			return true
+		}
+		for fv := range p.WritesTransitive(g) {
+			if reads[fv] {
+				W = append(W, call)
+				wrote[call] = fv.Name()
+				break
+			}
+		}
+		return true
+	})
+	c.Check(len(S) >= 1 && len(W) >= 1, rule, "snapshot and negotiation calls found", f.Decl.Pos(), fmt.Sprintf("found %d calls that create an Adj-RIB-In from the session attributes and %d calls that write what the attributes are read from; expected bmpInit ×2 and openMsgReceived", len(S), len(W)))
+	g := p.CFG(f)
+	for i, s := range S {
+		bad := ""
+		var at token.Pos = s.Pos()
+		for _, w := range W {
+			hits := core.PathAvoidingFrom(g,
+				func(n ast.Node) bool { return core.NodeHas(n, func(x ast.Node) bool { return x == ast.Node(s) }) },
+				func(ast.Node) bool { return false },
+				func(n ast.Node) bool { return core.NodeHas(n, func(x ast.Node) bool { return x == ast.Node(w) }) })
+			if len(hits) > 0 {
+				bad, at = core.ExprString(w.Fun)+" (writes "+wrote[w]+")", w.Pos()
+			}
+		}
+		c.Check(bad == "", rule, fmt.Sprintf("%s snapshot #%d (%s) is taken after the negotiation", f.Name(), i+1, core.ExprString(s.Fun)), at,
+			"the Adj-RIB-In is created from the session attributes and afterwards "+bad+" changes what they were read from: the table runs with options the session did not negotiate")
+	}
+}
